@@ -67,7 +67,9 @@ def _first_rule_stats(ctx):
 
 PROPS["C03"] = dict(
     module="Proofs.Properties.C03",
+    extra_modules=["Proofs.Properties.RegenPreds"],   # validator predicates regenerated from the Go source = the specification's (go2lean, tie R-fun)
     theorems=[
+        "Zrnt.Proofs.RegenPreds.isSlashable_eq",
         "Zrnt.Proofs.C03.indexedAttestation_sound",
         "Zrnt.Proofs.C03.spec_indexed_meaning",
         "Zrnt.Proofs.C03.slashable_sound",
